@@ -143,6 +143,12 @@ def r1_r2_r3(ck, cx):
             for what, c in sorted(exp.items()):
                 ck.ob('R1', cls.qn, 'accepted => %s' % what, c in got, detail='missing-guard ' + what, loc=cx.floc(f),
                       message='FC%d execute() can answer normally without requiring %s' % (fc, what))
+            # a normal answer is given only for a range that exists: the path passed validate() = True (FC23: for both ranges)
+            okv = [o for o in ep.ops if o.kind == 'validate' and o.polarity is True]
+            ck.ob('R1', cls.qn, 'accepted => the addressed range passed validate()', len(set(nz.canon(o.call.args[1]) for o in okv if len(o.call.args) >= 2)) >= (2 if fc == 23 else 1),
+                  detail='response-without-validate', loc=cx.floc(f),
+                  message='FC%d execute() can answer normally on a path that never passed context.validate() for the addressed range: a request for cells that do not '
+                          'exist gets a normal response instead of exception 02 (path conditions: %s)' % (fc, '; '.join(sorted(got))[:200]))
             # no narrower interval on a spec quantity, no non-vacuous interval on anything else
             bounds = single_symbol_bounds(ep.all_cons())
             for sym, (lo, hi) in sorted(bounds.items()):
